@@ -68,15 +68,24 @@ func C09_Middleware() {
 		}
 		wr.WriteHeader(200)
 	})
+	// an upstream middleware (logging, auditing) may already have resolved the user id
+	upstream := verif.Choice("upstream-loads-user-id", 2) == 1
+	h := expire.Middleware(w.AB)(next)
+	chain := http.HandlerFunc(func(wr http.ResponseWriter, r *http.Request) {
+		if upstream {
+			w.AB.LoadCurrentUserID(&r)
+		}
+		h.ServeHTTP(wr, r)
+	})
 	tb := time.Now().UTC()
-	w.Serve(expire.Middleware(w.AB)(next), world.Request("GET", "/x", ""))
+	w.Serve(chain, world.Request("GET", "/x", ""))
 	ta := time.Now().UTC()
 	verif.Assert(ran, "the wrapped handler always runs")
 
 	loggedIn := pre[authboss.SessionKey].ok
 	deadline := time.Unix(stampSec, 0).Add(expireAfter)
 	expired := verif.And(verif.And(loggedIn, hasStamp), tb.After(deadline)) // every clock reading is after the deadline ("more than ExpireAfter"; the exact instant is left open by the statement)
-	fresh := verif.And(loggedIn, verif.Or(!hasStamp, ta.Before(deadline)))    // every clock reading is before the deadline
+	fresh := verif.And(loggedIn, verif.Or(!hasStamp, ta.Before(deadline)))  // every clock reading is before the deadline
 	verif.Witness(expired, "expired-session")
 	verif.Witness(verif.And(fresh, hasStamp), "fresh-session")
 	verif.Witness(verif.And(fresh, !hasStamp), "session-without-stamp")
